@@ -282,7 +282,9 @@ class MatchesPredicate(Matcher):
 
     def match(self, x):
         if not self.predicate(x):
-            return Mismatch(self.message % x)
+            # Wrap in a tuple so that a tuple (or dict) matchee is formatted as
+            # one value rather than taken as the format arguments.
+            return Mismatch(self.message % (x,))
 
 
 def MatchesPredicateWithParams(predicate, message, name=None):
